@@ -177,8 +177,9 @@ impl Value {
             Self::UnaryOp(op, v) => {
                 let value = v.do_evaluate(scope, true)?;
                 match (op, value) {
-                    (Operator::Not, css::Value::Numeric(v, _)) => {
-                        (v.value == 0.into()).into()
+                    (Operator::Not, css::Value::Numeric(..)) => {
+                        // All numbers, including zero, are truthy.
+                        css::Value::False
                     }
                     (Operator::Not, css::Value::True) => css::Value::False,
                     (Operator::Not, css::Value::False) => css::Value::True,
